@@ -219,7 +219,8 @@ PROPS["C08"] = {
                   "runs before every callback registered earlier); the finaliser closure calls the action exactly once iff callable (awaiting its "
                   "awaitable), cancels iff 'cancel' or the action raised, and on every path returns only after wait_finished(); "
                   "run_background_task sets the finished event on every outcome and only after its own child context (explicit parent = owner) "
-                  "has been closed; an escaping Exception is re-raised into the task group.",
+                  "has been closed, inside the cancel scope the handle was created with (the one the finaliser's cancel() acts on); an escaping Exception "
+                  "is re-raised into the task group.",
     "level_note": "Trusted: A-TG1..4, A-CS, A-EV, A-DC, A-WITH, A-XS, A0. Composition with C01 (LIFO) is by contract.",
     "design_ref": "DESIGN.md section 5 (C08)",
     "explanation": "finalize_service_task: action-called-exactly-once-iff-callable, cancelled-as-the-action-dictates, waits-for-the-task-last; "
@@ -238,7 +239,9 @@ PROPS["C09"] = {
                   "factory.exception_handler) in the factory's group; the handle is in the set iff the spawn succeeded (fixed F10) and the wrapper "
                   "removes exactly its own handle on every outcome after the task ended; the wrapper passes the factory's own context as explicit "
                   "parent (never the spawner's); run_background_task offers an escaping Exception to the handler exactly once, swallows iff truthy, "
-                  "lets other BaseExceptions bypass it, sets the finished event on every outcome; cancel() touches only the handle's own scope; "
+                  "lets other BaseExceptions bypass it, sets the finished event on every outcome, runs the task function inside the cancel scope the "
+                  "handle was created with and never rebinds the handle's scope or event (so a cancel() issued before the task's first step is not "
+                  "lost); cancel() touches only the handle's own scope; "
                   "all_task_handles() returns a fresh copy.",
     "level_note": "Trusted: A-TG1..4, A-CS, A-EV, A-DC, A-WITH, A-TF1. fixed: F10.",
     "design_ref": "DESIGN.md section 5 (C09)",
